@@ -3,7 +3,7 @@ import ast
 from .. import alg
 from ..alg import Rat, C
 from ..model import AnalysisError, Ext, stmt_text
-from ..symval import Evaluator, Tup, Obj, NoneV, NONE, CallV, Bool, Ref, IteV, Str
+from ..symval import Evaluator, Tup, Obj, NoneV, NONE, CallV, Bool, Ref, IteV, Str, _single_atom
 from ..symcheck import Oracle, sym_ellipsoid, sym_projection, check_equal, compare_values, show
 from ..rules import ThreadRule, where, optnum_rule, defassign, defassign_rule
 from ..mutate import replace_in_function, substitute
@@ -103,8 +103,59 @@ def notations(repo):
     return out
 
 
-def compare_objs(rep, rule, key, w, got, want, what):
+def string_field_verdict(repo, got, want):
+    """fields of two objects that are truth values testing the hemisphere label geo2grid returns: decided for each label it can return"""
+    from ..symcheck import string_results, decide_conditions_by_strings
+    if not (isinstance(got, Obj) and isinstance(want, Obj) and got.cls.key == want.cls.key):
+        return 'unknown', ''
+    dom = None
+    for k in sorted(set(got.fields) | set(want.fields)):
+        a, b = got.fields.get(k), want.fields.get(k)
+        if a is None or b is None:
+            return 'unknown', ''
+        if compare_values(a, b) == 'equal':
+            continue
+        rats = []
+
+        def walk(v):
+            if isinstance(v, IteV):
+                walk(v.cond); walk(v.a); walk(v.b)
+            elif isinstance(v, Rat):
+                rats.append(v)
+        walk(a); walk(b)
+        gens = {}
+        for r_ in rats:
+            for i in r_.atoms(deep=True):
+                at = alg.TABLE.atoms[i]
+                if at.kind == 'fn' and at.name == 'item' and len(at.args) == 2 and isinstance(at.args[0], Rat) and isinstance(at.args[1], Rat) and at.args[1].is_zero():
+                    ca = _single_atom(at.args[0])
+                    if ca is not None and ca.kind == 'fn' and ca.name == 'call:geo2grid':
+                        gens[i] = Rat.atom(at)
+        if len(gens) != 1:
+            return 'unknown', ''
+        if dom is None:
+            dom = string_results(repo, 'geodepy.convert', 'geo2grid', 0, opaque={'psfandgridconv', 'alpha_coeff', 'rect_radius'})
+        if not dom:
+            return 'unknown', ''
+        v, sval = decide_conditions_by_strings(a, b, list(gens.values())[0], dom)
+        if v == 'different':
+            return 'different', '%s: geo2grid returns the hemisphere label %r (it returns one of %s); for that label the code gives %s where the reference gives the opposite' % (
+                k, sval, dom, show(a, 2, 80))
+        if v != 'equal':
+            return 'unknown', ''
+    return 'equal', 'fields that test the hemisphere label agree for each label geo2grid can return (%s)' % (dom,)
+
+
+def compare_objs(rep, rule, key, w, got, want, what, repo=None):
     r = compare_values(got, want)
+    if r == 'unknown' and repo is not None:
+        r2, note = string_field_verdict(repo, got, want)
+        if r2 == 'equal':
+            rep.holds(rule, key, w, what + ': ' + note)
+            return 'equal'
+        if r2 == 'different':
+            rep.violated(rule, key, w, what + ': differs from the reference in ' + note, expected=show(want, 2, 300), actual=show(got, 2, 300))
+            return 'different'
     if r == 'equal':
         rep.holds(rule, key, w, what + ': equals the reference')
     elif r == 'different':
@@ -173,6 +224,23 @@ def delegation_rules(repo, rep, only=None):
         want = orc.call('geo_cart', lat=lat, lon=lon, ell_ht=eh, orth_ht=oh, ellipsoid=Eo)
         compare_objs(rep, 'R-WIRE', base + 'CoordGeo.cart', where(f, f.node), got, want,
                      'CoordGeo.cart = CoordCart(llh2xyz(own lat, lon, ell_ht or 0, ellipsoid), N = ell_ht - orth_ht when both heights are present - zero is a height)')
+        # the same with latitude / longitude held as angle OBJECTS: they are handed on as they are (the conversion functions accept every
+        # angle class; float(obj) would be the object's own notation - HP digits, gradians - not decimal degrees)
+        angm = repo.module('geodepy.angles')
+        for cn in ('HPAngle', 'DMSAngle'):
+            ev = mk_eval(repo)
+            E = sym_ellipsoid(ev, repo, 'ellipsoid')
+            olat = ev.symbolic_object(angm.classes[cn], 'lat', origin='param:lat')
+            olon = ev.symbolic_object(angm.classes[cn], 'lon', origin='param:lon')
+            me = sym_self(ev, repo, 'CoordGeo', lat=olat, lon=olon, ell_ht=eh, orth_ht=oh)
+            got = ev.call_function(f, {'self': me, f.params[1].name: E})
+            orc = Oracle(ORACLE, base=repo, opaque=orc_opq)
+            Eo = sym_ellipsoid(orc.ev, orc.repo, 'ellipsoid')
+            wlat = orc.ev.symbolic_object(orc.repo.module('geodepy.angles').classes[cn], 'lat', origin='param:lat')
+            wlon = orc.ev.symbolic_object(orc.repo.module('geodepy.angles').classes[cn], 'lon', origin='param:lon')
+            want = orc.call('geo_cart', lat=wlat, lon=wlon, ell_ht=eh, orth_ht=oh, ellipsoid=Eo)
+            compare_objs(rep, 'R-WIRE', base + 'CoordGeo.cart[%s]' % cn, where(f, f.node), got, want,
+                         'CoordGeo.cart with %s latitude / longitude = CoordCart(llh2xyz(the objects themselves, ...))' % cn)
     # ---- CoordGeo.tm
     f = repo.func('geodepy.coord', 'CoordGeo.tm')
     rep.analysed(f)
@@ -187,7 +255,7 @@ def delegation_rules(repo, rep, only=None):
         Po = sym_projection(orc.ev, orc.repo, 'projection')
         want = orc.call('geo_tm', lat=lat, lon=lon, ell_ht=eh, orth_ht=oh, ellipsoid=Eo, projection=Po)
         compare_objs(rep, 'R-WIRE', base + 'CoordGeo.tm', where(f, f.node), got, want,
-                     'CoordGeo.tm = CoordTM(geo2grid(own lat, lon, automatic zone, ellipsoid, projection), heights unchanged, same projection)')
+                     'CoordGeo.tm = CoordTM(geo2grid(own lat, lon, automatic zone, ellipsoid, projection), heights unchanged, same projection)', repo=repo)
     # ---- CoordTM.geo
     f = repo.func('geodepy.coord', 'CoordTM.geo')
     rep.analysed(f)
